@@ -76,3 +76,18 @@ Definition vm_convert (ks kd : Z) (x : Z) : option (option Z) :=
     else if opc =? gen_OpConvertUint then gen_alu_OpConvertUint kd (Some (canon x))
     else None
   end.
+
+(* `x c y` for operands of kind k used as a condition: emitComparison picks
+   the runtime.Condition from the operator and the kind, OpIfInt evaluates it
+   on the two registers. *)
+Definition select_cmp_tbl (c : cmpop) : list (Z * Z) :=
+  match c with
+  | Ceq => gen_select_cmp_OperatorEqual | Cne => gen_select_cmp_OperatorNotEqual
+  | Clt => gen_select_cmp_OperatorLess | Cle => gen_select_cmp_OperatorLessEqual
+  | Cgt => gen_select_cmp_OperatorGreater | Cge => gen_select_cmp_OperatorGreaterEqual
+  end.
+Definition vm_cmp (c : cmpop) (k : Z) (x y : Z) : option (option bool) :=
+  match zassoc (select_cmp_tbl c) k with
+  | None => None
+  | Some cnd => gen_ifint cnd (Some (canon x)) (Some (canon y))
+  end.
